@@ -79,7 +79,15 @@ def judge_search(rec, lab, s, case):
     rec.count("judged")
     if len(forms) > 1:
         rec.count("several_forms")
-    sforms = [(t, f.replace(">", "*")) for t, f in forms]
+    # "the entries matching the search with '>' read as '*'": the match set is that of the '*' version of the SEARCH
+    # (its own unfolding), not of the '>' forms with the symbol replaced
+    try:
+        sforms = lab.allmodel.unfold(s.replace(">", "*"))
+    except Exception:
+        rec.count("unfold_star_version_raised")
+        return
+    if {f.replace(">", "*") for _t, f in forms} != {f for _t, f in sforms}:
+        rec.count("star_version_has_other_strings")
     expected = {}
     contested = False
     differs = False
@@ -173,6 +181,11 @@ def judge_get_last(rec, lab, e, key, case):
     if exp:
         rec.count("get_last_nonempty")
         want = next(iter(exp))
+        wt = lab.model.natural(want)
+        if wt is None or key not in wt.keys:
+            # the greatest entry is of a type that does not carry `key` (same string pattern, other type): statement silent
+            rec.unspec("get_last_answer_of_a_type_without_the_key")
+            return
         if str(got) != want:
             rec.violation("get_last_differs", c, "got %r expected %r" % (str(got), want))
     else:
@@ -188,7 +201,7 @@ def worker(args):
     if "replay" in args:
         c = args["replay"]
         rec.ev()
-        lab.new_universe(ents=c["ents"], names=c.get("names"))
+        lab.new_universe(ents=c["ents"], names=c.get("names"), only_default=c.get("only_default"))
         if "key" in c:
             judge_get_last(rec, lab, c["sid"], c["key"], dict(c))
         else:
@@ -203,14 +216,14 @@ def worker(args):
             s, info = lab.search(allow_last=True)
             s = force_last(rng, lab, s)
             rec.ev()
-            case = {"search": s, "ents": ents, "names": names, "uid": uid}
+            case = {"search": s, "ents": ents, "names": names, "only_default": lab.only_default, "uid": uid}
             judge_search(rec, lab, s, case)
         for k in range(6):
             e = rng.choice(lab.full)
             x_keys = lab.model.natural(e).keys
             key = rng.choice(x_keys)
             rec.ev()
-            judge_get_last(rec, lab, e, key, {"ents": ents, "names": names, "uid": uid})
+            judge_get_last(rec, lab, e, key, {"ents": ents, "names": names, "only_default": lab.only_default, "uid": uid})
         if u == 0:
             rec.sample({"entities": ents[:6], "n": len(ents), "search": s})
     lab.trees.reset()
